@@ -27,6 +27,25 @@ def _shape_of(expr):
     return None
 
 
+def _shapes_of(expr):
+    """Set of shapes an expression can have; 'field' = the store's current value; None = not understood."""
+    if isinstance(expr, ast.IfExp):
+        a, b = _shapes_of(expr.body), _shapes_of(expr.orelse)
+        return None if a is None or b is None else a | b
+    if isinstance(expr, ast.BoolOp) and isinstance(expr.op, ast.Or):
+        out = set()
+        for v in expr.values:
+            x = _shapes_of(v)
+            if x is None:
+                return None
+            out |= x
+        return out
+    if norm(expr) == 'self.' + FIELD:
+        return {'field'}
+    sh = _shape_of(expr)
+    return {sh} if sh else None
+
+
 def _field_shapes(ctx, cls):
     """Shapes stored into self._componentValues by the methods defined in `cls` (own body)."""
     shapes = {}
@@ -38,16 +57,16 @@ def _field_shapes(ctx, cls):
             local = {}
             for n in walk_own(f.node):
                 if isinstance(n, ast.Assign) and len(n.targets) == 1 and isinstance(n.targets[0], ast.Name):
-                    sh = _shape_of(n.value)
-                    if sh:
-                        local.setdefault(n.targets[0].id, set()).add(sh)
-                    elif norm(n.value) == 'self.' + FIELD:
-                        local.setdefault(n.targets[0].id, set()).add('field')
+                    shs = _shapes_of(n.value)
+                    if shs:
+                        local.setdefault(n.targets[0].id, set()).update(shs)
             for n in walk_own(f.node):
                 if isinstance(n, ast.Assign) and any(norm(t) == 'self.' + FIELD for t in n.targets):
-                    sh = _shape_of(n.value)
-                    if sh:
-                        shapes.setdefault(sh, []).append((f, n))
+                    shs = _shapes_of(n.value)
+                    if shs:
+                        for sh in shs:
+                            if sh != 'field':
+                                shapes.setdefault(sh, []).append((f, n))
                     elif isinstance(n.value, ast.Name) and n.value.id in local:
                         for s in local[n.value.id]:
                             if s != 'field':
@@ -146,16 +165,43 @@ def rule_companion(ctx):
     if nw < 2:
         raise AnalysisError('writers of _currentIdx not found')
     f = ctx.func('type.univ.Choice.setComponentByPosition')
-    src = [norm(s) for s in stmts_of(f.node)]
-    ok = ('oldIdx = self._currentIdx' in src and 'self._currentIdx = idx' in src and
-          any(s.startswith('if oldIdx is not None and oldIdx != idx:') for s in src) and
-          'self._componentValues[oldIdx] = noValue' in src)
+    # outcome table over (previously chosen index, new index): the previous alternative is dropped iff there was one and
+    # it is another one
+    from sa import region, intexpr
+    idxp = f.params()[1]
+    state = {}
+
+    def mark(st_, env):
+        if isinstance(st_, ast.Assign) and len(st_.targets) == 1 and isinstance(st_.targets[0], ast.Name) and norm(st_.value) == 'self._currentIdx':
+            env[st_.targets[0].id] = state['old']
+            return region.SKIP
+        if isinstance(st_, ast.Assign) and len(st_.targets) == 1 and isinstance(st_.targets[0], ast.Subscript) and \
+                norm(st_.targets[0].value) == 'self.' + FIELD and norm(st_.value) == 'noValue':
+            try:
+                return 'drop:%r' % (intexpr.ev(st_.targets[0].slice, env),)
+            except intexpr.NotPure:
+                return 'drop:?'
+        return None
+    ok = True
+    bad = ''
+    try:
+        for old in (None, 0, 1, 2):
+            for new_ in (0, 1, 2):
+                state['old'] = old
+                lab, env = region.walk(f.node.body, {idxp: new_}, mark)
+                want = 'drop:%r' % (old,) if old is not None and old != new_ else None
+                got = lab if lab and lab.startswith('drop') else None
+                if got != want:
+                    ok = False
+                    bad = 'previous alternative %r, new alternative %r: %s' % (old, new_, got or 'nothing dropped')
+    except region.Undecided as x:
+        raise AnalysisError('Choice.setComponentByPosition is not a pure table over the two indexes: %s' % x)
     # order: base setter first (may raise), then the index
     cfg = ctx.cfg(f)
     setter = [n for n in cfg.stmt_nodes() if n.kind == 'stmt' and 'Set.setComponentByPosition(self' in n.text()]
     idxw = [n for n in cfg.stmt_nodes() if n.kind == 'stmt' and norm(n.ast) == 'self._currentIdx = idx']
     ok = ok and bool(setter) and bool(idxw) and cfg.dominates(setter[0], idxw[0])
-    ctx.ob('A10.single', f, 'selecting an alternative drops the previous one (after the new one was accepted)', ok, '')
+    ctx.ob('A10.single', f, 'selecting an alternative drops the previous one (after the new one was accepted)', ok, bad)
     # __len__/__contains__/__iter__/isValue derive from _currentIdx
     for nm in ('__len__', '__contains__', '__iter__', 'values', 'keys', 'items'):
         m = ch.own(nm)
